@@ -108,4 +108,11 @@ def run(ctx):
     fc.validate(ctx, t2, "file path: threads x batch limits", "cgr")
     c = cli_runs(ctx, 24 if ctx.thorough() else 10, 200)
     fc.validate(ctx, c, "CLI comp cgr incl. refusal", "cgr")
+    # the Python binding (vectorise_one / vectorise_batch, ValueError), same judge
+    pe = ctx.path("py_cgr.ndjson")
+    p = fc.pydriver(ctx, ["cgr", ctx.seed + 3, 200 if ctx.thorough() else 60, 900], pe)
+    if p.returncode != 0:
+        ctx.violation("python_cgr", {"exit": p.returncode}, {"stderr": p.stderr.decode(errors="replace")[-1500:]})
+    else:
+        fc.validate(ctx, pe, "python CgrComputer vectorise_one / vectorise_batch", "cgr")
     ctx.exhaustive = False
